@@ -7,14 +7,34 @@ import "sync/atomic"
 
 var timestamp uint32 = 1_900_000_000
 
+// strict model (opt-in, VerifNewProcess(true)): as in the real package the coarse clock reads 0 until somebody has
+// called StartTimeStampUpdater - code that reads Timestamp() without starting the updater sees a clock that never moves.
+var strict, started uint32
+
 // Timestamp returns the harness-owned coarse clock.
-func Timestamp() uint32 { return atomic.LoadUint32(&timestamp) }
+func Timestamp() uint32 {
+	if atomic.LoadUint32(&strict) == 1 && atomic.LoadUint32(&started) == 0 {
+		return 0
+	}
+	return atomic.LoadUint32(&timestamp)
+}
 
 // VerifSetTimestamp sets the coarse clock (seconds).
 func VerifSetTimestamp(v uint32) { atomic.StoreUint32(&timestamp, v) }
 
-// StartTimeStampUpdater is a no-op: nothing updates the clock but the harness.
-func StartTimeStampUpdater() {}
+// VerifNewProcess models the start of a process: nobody has started the updater yet. With strictModel false (the
+// default of every harness that does not call this) the clock always reads the harness value.
+func VerifNewProcess(strictModel bool) {
+	var s uint32
+	if strictModel {
+		s = 1
+	}
+	atomic.StoreUint32(&strict, s)
+	atomic.StoreUint32(&started, 0)
+}
+
+// StartTimeStampUpdater starts nothing: nothing updates the clock but the harness. It is recorded for the strict model.
+func StartTimeStampUpdater() { atomic.StoreUint32(&started, 1) }
 
 // StopTimeStampUpdater is a no-op.
 func StopTimeStampUpdater() {}
